@@ -561,14 +561,25 @@ def operation_without_new_name(wb, a):
 def trigger_unknown_flow(wb, a):
     pat = r"Trigger references undefined flow name " + NOFLOW
     found = False
+    seen = set()
     for name, i, r in index_rows(wb):
         if r.get("type") == "create_triggers":
             s = A.split1(r.get("sheet_name", ""))[0]
+            if s in seen:       # a sheet listed twice is one parser
+                continue
+            seen.add(s)
             for j, _t in enumerate(wb["sheets"][s]["rows"]):
                 found = True
                 w = wb_copy(wb)
                 w["sheets"][s]["rows"][j]["flow"] = NOFLOW
                 yield ({"sheet": s, "pos": j, "how": "trigger row names an unknown flow"}, w, pat)
+                # a flow that only a REPLACED flow definition refers to (by name, without a uuid) is unknown too:
+                # the replaced flow is parsed and checked, but never reaches the container / the uuid dictionary
+                for nm in a.replaced_only_refs:
+                    w = wb_copy(wb)
+                    w["sheets"][s]["rows"][j]["flow"] = nm
+                    yield ({"sheet": s, "pos": j, "how": "trigger row names a flow that only a replaced definition refers to: " + nm}, w,
+                           r"Trigger references undefined flow name " + nm)
     if not found and "content_index" in wb["sheets"]:
         rows = wb["sheets"]["content_index"]["rows"]
         for p in range(len(rows) + 1):
